@@ -28,8 +28,8 @@ pub fn run(rep: &mut Rep) {
         ..Default::default()
     };
     let depth = if rep.quick() { 6 } else { 9 };
-    // (session expiry interval, seconds since disconnection): >= 6 s away from the boundary on the near side so that the wall clock cannot decide; exactly at the boundary (elapsed = interval) the session has expired however long the check itself takes
-    let configs: Vec<(u32, u64)> = vec![(0, 0), (0, 1000), (100, 0), (100, 50), (100, 94), (100, 106), (100, 1000), (100, 1_000_000_000), (NEVER, 0), (NEVER, 1000), (NEVER, 1_000_000_000), (5_000_000, 4_999_000), (100, 100), (1, 1), (5_000_000, 5_000_000)];
+    // (session expiry interval, seconds since disconnection): >= 6 s away from the boundary on the near side so that the wall clock cannot decide; exactly at the boundary (elapsed = interval) the session has expired however long the check itself takes; also elapsed times of 2^32 seconds and more, whose low 32 bits lie below the interval
+    let configs: Vec<(u32, u64)> = vec![(0, 0), (0, 1000), (100, 0), (100, 50), (100, 94), (100, 106), (100, 1000), (100, 1_000_000_000), (NEVER, 0), (NEVER, 1000), (NEVER, 1_000_000_000), (5_000_000, 4_999_000), (100, 100), (1, 1), (5_000_000, 5_000_000), (3600, (1u64 << 32) + 10), (100, 1u64 << 32), (5_000_000, (1u64 << 33) + 5), (4_000_000_000, (1u64 << 32) + 100)];
     // (requested interval, CONNACK override, elapsed): the interval in force is the server's when it sends one
     let overrides: Vec<(u32, u32, u64)> = vec![(3600, 0, 1), (NEVER, 0, 1), (100, 1000, 500), (1000, 10, 100), (0, 500, 10), (100, NEVER, 100_000), (50, 50, 10)];
     rep.note(&format!("crash points: the connection is cut (EOF) after every path of <= {depth} actions over {{publish QoS 1/2, PUBACK, PUBREC ok/failing, PUBCOMP}}, then hook H1 backdates the disconnection and the context reconnects; x {} (expiry interval, elapsed) pairs incl. 0, finite before/after expiry (>= 6 s from the boundary), never, and 7 cases where the CONNACK of the resuming connection overrides the requested interval (to 0, shorter, longer, never); the second wire before any new request is compared with the model, then acknowledgements are delivered on the new connection", configs.len()));
